@@ -33,6 +33,7 @@ REV = {
  'fix: after a crash the allocators ignored': ('D1', [('C01','C01.R4')]),
  'fix: a crash during mkfs left a disk': ('D2', [('C01','C01.R5')]),
  'fix: READDIR/READDIRPLUS with a cookie that is not': ('D33', [('C11','C11.V9')]),
+ 'fix: GetInodeLocked reads a cold inode from the committed state': ('D38', [('C03','C03.T7'),('C05','C05.F12')]),
  'fix: the advertised wtmax was refused': ('D28', [('C19','C19.M2')]),
  'fix: an index block allocated for a write that then ran out': ('D37', [('C05','C05.F10')]),
  'fix: a commit the journal refused left its changes': ('D36', [('C09','C09.A8'),('C10','C10.W9'),('C05','C05.F9')]),
